@@ -134,6 +134,12 @@ def gen_cases(tier, seed):
                                        'j1', 'k3', 'm7'], 8)
             G.POOLS['virt'] = r.sample(['a', 'b', 'c', 'd', 'e', 'f', 'g', 'h',
                                         'a1', 'b1', 'c2', 'h5'], 8)
+            if spin and r.random() < 0.6:
+                # few low names: targets and contracted indices of different
+                # spin compete for the same name
+                G.POOLS['occ'] = ['i', 'j', 'k']
+                G.POOLS['virt'] = ['a', 'b', 'c']
+                g.max_pool = 3
             nterms = r.choice([1, 1, 2, 3])
             first = g.term(nobj=r.randint(1, 4))
             if first is None:
